@@ -167,6 +167,12 @@ v('C14', 'fire', IS, 'v[n_output_noises] = noise[axis]', 'v[n_output_noises] = n
 v('C14', 'silent', IS, 'P[n_states, n_states] = bias_sd[axis] ** 2', 'P[n_states, n_states] = bias_sd[axis] * bias_sd[axis]')
 v('C14', 'silent', IS, '            if bias_sd[axis] > 0:', '            if not bias_sd[axis] <= 0:')
 v('C14', 'silent', IS, 'H = np.zeros((3, self.MAX_STATES))', 'H = np.zeros((3, 2 * self.MAX_STATES))', 'larger scratch buffer')
+v('C14', 'fire', IS, 'nominal = 1 if axis_out == axis_in else 0', 'nominal = 1 if axis_out != axis_in else 0', 'survey: nominal transform of the parameter table')
+v('C14', 'fire', IS, '        for axis_out in range(3):', '        for axis_out in range(2):', 'survey: z row missing from the parameter table')
+v('C14', 'fire', IS, "                self.data_frame[f'bias_{INDEX_TO_XYZ[axis]}'] = bias[:, axis]", "                self.data_frame[f'bias_{INDEX_TO_XYZ[axis]}'] = bias[:, 0]", 'bias column of another axis')
+v('C14', 'fire', IS, '            if self.bias[axis] != 0 or self.bias_walk[axis] != 0:', '            if self.bias[axis] != 0:', 'walk-only axis missing from the table')
+v('C14', 'silent', IS, '                if actual != nominal:', '                if abs(actual - nominal) > 0:')
+v('C14', 'fire', IS, '            return np.zeros(shape)\n\n        param = np.asarray(param)', '            return np.ones(shape)\n\n        param = np.asarray(param)', 'survey: None enables every term')
 v('C07', 'fire', KA, '    S = HP @ H.T + R\n', '    S = HP @ H.T + R\n    S[np.diag_indices_from(S)] += 1e-10\n', 'seeded C07 round 4: absolute jitter on the innovation covariance')
 _LEV = ('        if self.imu_to_antenna_b is not None:\n            mat_nb = transform.mat_from_rph(pva[RPH_COLS])\n'
         '            z += mat_nb @ self.imu_to_antenna_b\n')
